@@ -16,7 +16,7 @@ var idxAssume = []string{
 
 var metas = map[string]PropMeta{
 	"C01": {
-		Explanation: "PIPE-CLONE, LOST-UPDATE (rewriters), ENC-MAPKEY (rewriters and flatten.go), PIPE-REBASE. Each is a necessary condition: violating it changes the meaning of some bundle in W.",
+		Explanation: "PIPE-CLONE, LOST-UPDATE (rewriters), ENC-MAPKEY and ENC-CMP (rewriters and flatten.go), REF-EQ, ENC-FRAGSPLIT, ENC-CONSUMER, PIPE-REBASE, LOOPVAR-ADDR. Each is a necessary condition: violating it changes the meaning of some bundle in W.",
 		NotDecided:  []string{"bisimulation of the $ref-unfolded documents", "that a re-pointed $ref designates the same schema", "normalize.RebaseRef's path arithmetic", "OAIGen de-duplication", "that paths/operations/parameters are otherwise untouched"},
 		Assumptions: []string{"string encodings: N raw name, T pointer-escaped token, P joined tokens, K '#'+P, U URL-escaped K; signatures of jsonpointer.Escape/Unescape, path.Join/Base/Dir, url.PathUnescape, Ref.String as read from their sources; names contain no '%'"},
 	},
@@ -26,12 +26,12 @@ var metas = map[string]PropMeta{
 		Assumptions: []string{"the single transient non-canonical write (stripOAIGenForRef re-pointing parents to the first parent) is followed by pointer naming, as its return value requests"},
 	},
 	"C03": {
-		Explanation: "PIPE-SAVE-NAME, PIPE-WHOWRITES-DEFS, GUARD-UNIQ, GUARD-COMPLEXMOVE, GUARD-COMPLEXDEF, PIPE-ORDER/inline, COV-METHODSET.",
+		Explanation: "PIPE-SAVE-NAME, PIPE-WHOWRITES-DEFS, GUARD-UNIQ, GUARD-COMPLEXMOVE, GUARD-COMPLEXDEF, GUARD-REINLINE, GUARD-DOCRULES, PIPE-ORDER/inline, COV-METHODSET.",
 		NotDecided:  []string{"that every position is visited (C11/C12)", "the re-iteration fixpoint after de-duplication re-inlines a complex schema"},
 		Assumptions: []string{"strings.EqualFold is the case-insensitive comparison meant by the statement"},
 	},
 	"C04": {
-		Explanation: "PIPE-HOLDERS, SYNC-ENTRY, ENC-REFARG (known finding).",
+		Explanation: "PIPE-HOLDERS, SYNC-ENTRY, ENC-REFARG (known finding), ENC-PREFIXSEP, PIPE-ABSJOIN, ENC-FRAGSPLIT, ENC-CONSUMER.",
 		NotDecided:  []string{"that Flatten returns nil on every bundle of W"},
 		Assumptions: []string{"the kinds of value jsonpointer.Get can return for an analyzer key are *Schema, Schema, *SchemaOrArray, *SchemaOrBool, and the containers of a by-value schema are Definitions, map[string]Schema, []Schema, *SchemaOrArray, SchemaProperties (read from go-openapi/spec)"},
 	},
@@ -41,7 +41,7 @@ var metas = map[string]PropMeta{
 		Assumptions: []string{"names contain no '%' (url.PathUnescape is then the inverse of the escaping done by Ref.String)"},
 	},
 	"C07": {
-		Explanation: "ORD-LOOP over every unordered loop below Flatten and ORD-SINK over every use of an order-tainted slice or field.",
+		Explanation: "ORD-LOOP over every unordered loop below Flatten, ORD-SINK over every use of an order-tainted slice or field, ORD-TOTAL over every comparator that sorts below Flatten.",
 		NotDecided:  []string{"three loops frozen as assumptions (see exempt obligations)", "that Less functions are total orders", "byte-identical serialisation"},
 		Assumptions: []string{"Go map iteration order is the only source of nondeterminism (single goroutine, no time or randomness below Flatten)", "distinct iterations of a loop over a map write distinct keys when the key is the loop variable"},
 	},
